@@ -94,6 +94,16 @@ ONE={
 "C13-B3":("sync admission candidate built with the entry's stored weight","new key inserted twice with different weights before maintenance"),
 "C16-A3":("sync iterator reads the clock once at creation","iterator held while entries expire"),
 "C16-B3":("unsync `Debug` walks the raw map","expired, unpurged entries and `{:?}`"),
+"C01-A4":("sync maintenance clears `valid_after` when its counters are 0","insert + clock advance + invalidate_all on another thread while a sync run sits between apply-writes and the end of its expiry step"),
+"C01-B4":("sync `Iter` reads `valid_after` and the clock once at creation","iterator held across invalidate_all()"),
+"C06-A4":("sync `is_expired_entry_ao`: fast path `now <= ts => not expired`","tti = 0 and a read at the entry's own clock reading"),
+"C06-B4":("unsync free-space insert creates the access-order node only if max_capacity or ttl is set","unbounded cache with tti only"),
+"C14-A4":("unsync weighted cache keeps re-sizing the sketch","weigher, enabled sketch with recorded lookups, more than 128 entries: a plain insert zeroes every estimate"),
+"C14-B4":("sync `apply_reads`: the sketch increment moved inside the 'not backwards' guard","a queued hit older than the entry's last_accessed is applied without being recorded"),
+"C15-A4":("unsync `contains_key` enables the popularity sketch","weigher; capacity/2 crossed by a growing update (which never enables the sketch); popularity later decides an admission"),
+"C15-B4":("creating a sync iterator re-arms the periodic-sync window","> 500 ms since the last maintenance run, < 64 queued ops, cold key inserted into a full cache and read before the next sync"),
+"C17-A4":("sync builder `max_capacity`: `get_or_insert` instead of `insert`","max_capacity applied to a builder that already carries one"),
+"C17-B4":("unsync `with_everything` drops zero durations","time_to_live / time_to_idle of exactly 0"),
 }
 rows=[]
 for d in sorted(glob.glob("/verif/seeded/*/meta.json")):
@@ -165,6 +175,12 @@ The author of `seeded/C08-*3` reported three more observations on the unchanged
 tree; none is inside the quantifier of C08 and all are recorded in §7
 (a key whose `Hash` changes while it is cached, `initial_capacity` near
 `usize::MAX`, a 2^30-slot sketch).
+
+Fourth round (ids ending in `4`, same brief as the third, for C01, C06, C14, C15,
+C17): all caught; `C14-A4` only after insert-bursts were added to the C14
+profile (the fault needs more than 128 entries), `C01-A4` by C07 (it needs an
+interleaving). `C14-B4` is, like `C14-B2`, an *unrecorded* lookup, which the
+statement allows ("at most once"), so the silence of C14 is right.
 
 Not caught (or caught only elsewhere), with the reason:
 * `C12-A3`, `C10-B3` — need a second thread to act between two adjacent
